@@ -540,4 +540,45 @@ def resolve(fn, e, depth=3):
         others = [n for n in walk_func(fn) if isinstance(n, ast.Name) and n.id == e.id and isinstance(n.ctx, (ast.Store, ast.Del))]
         if len(defs) == 1 and len(others) == 1:
             return resolve(fn, defs[0].value, depth - 1)
+        if not defs and len(others) == 1:
+            # one element of a tuple assignment:  a, b = x, y   /   a, b = m.group(1, 2)
+            for s in walk_func(fn):
+                if isinstance(s, ast.Assign) and len(s.targets) == 1 and isinstance(s.targets[0], (ast.Tuple, ast.List)):
+                    names = [t.id if isinstance(t, ast.Name) else None for t in s.targets[0].elts]
+                    if e.id in names:
+                        i = names.index(e.id)
+                        v = s.value
+                        if isinstance(v, (ast.Tuple, ast.List)) and len(v.elts) == len(names):
+                            return resolve(fn, v.elts[i], depth - 1)
+                        if isinstance(v, ast.Call) and isinstance(v.func, ast.Attribute) and v.func.attr == "group" and len(v.args) == len(names) and not v.keywords:
+                            return ast.copy_location(ast.Call(func=v.func, args=[v.args[i]], keywords=[]), v)
     return e
+
+
+def resolve_deep(fn, e, depth=3):
+    """copy of an expression in which every name that fn assigns exactly once is replaced by the assigned value"""
+    import copy as _copy
+
+    class R(ast.NodeTransformer):
+        def visit_Name(self, n):
+            if isinstance(n.ctx, ast.Load):
+                r = resolve(fn, n, depth)
+                if r is not n:
+                    return R().visit(_clone_expr(r))
+            return n
+    return R().visit(_clone_expr(e))
+
+
+def _clone_expr(n):
+    """structural copy of an expression tree without the parent / module back links"""
+    if isinstance(n, ast.AST):
+        new = type(n)()
+        for f in n._fields:
+            setattr(new, f, _clone_expr(getattr(n, f, None)))
+        for a in ("lineno", "col_offset", "end_lineno", "end_col_offset"):
+            if hasattr(n, a):
+                setattr(new, a, getattr(n, a))
+        return new
+    if isinstance(n, list):
+        return [_clone_expr(x) for x in n]
+    return n
